@@ -26,6 +26,7 @@ import (
 	"fmt"
 	"io"
 	"io/ioutil"
+	"os"
 
 	"github.com/sassoftware/relic/v8/lib/authenticode"
 	"github.com/sassoftware/relic/v8/lib/binpatch"
@@ -76,6 +77,29 @@ func DigestXapTar(r io.Reader, hash crypto.Hash, doPageHash bool) (*XapDigest, e
 		PatchStart: zipSize,
 		PatchLen:   totalSize - zipSize,
 	}, nil
+}
+
+// Transform a XAP into the tar stream that DigestXapTar consumes. An existing
+// signature trailer stays in the stream so that signing can replace it.
+func XapToTar(f *os.File, w io.Writer) error {
+	size, err := f.Seek(0, io.SeekEnd)
+	if err != nil {
+		return err
+	}
+	zipSize := size
+	if size >= 10 {
+		var tr xapTrailer
+		if err := binary.Read(io.NewSectionReader(f, size-10, 10), binary.LittleEndian, &tr); err != nil {
+			return err
+		}
+		if tr.Magic == trailerMagic {
+			zipSize = size - 10 - int64(tr.TrailerSize)
+			if zipSize < 0 {
+				return errors.New("invalid xap file")
+			}
+		}
+	}
+	return zipslicer.ZipToTarSize(f, w, size, zipSize)
 }
 
 func removeSignature(cd []byte) []byte {
